@@ -349,7 +349,7 @@ def run(rec, hub, tier, seed, shard, nshards, budget):
     rec.require(MB, 30)
     rec.require(MR, 20)
     rec.require(MD, 20)
-    n = 300 if tier == "quick" else 1500
+    n = 450 if tier == "quick" else 4000
     tmpdir = tempfile.mkdtemp(prefix="vmon-c18-")
     try:
         for kk in range(n):
